@@ -39,7 +39,7 @@ func init() {
 		Rule: "store level: the C04 random walk on a collapsing-lowest/highest store with N from {1,2,3,4,5,8,16,31,32,33,64,100,128,1000,2048}, merges from every kind and every N' (incl. wide arguments into an empty or cleared receiver), " +
 			"every observer compared after every event with the fold model (exact content with indexes beyond the edge folded into the edge bin), plus #bins<=N, span<=N and (hook) allocated length<=N; " +
 			"sketch level: collapsing sketches on inputs wider than N, quantiles checked against the alpha bound when the true bin is retained, else against the edge bin. Non-trivial = a collapse happened (model folded weight); distinct = hash of (kind, N, centre, length, PRNG state).",
-		Cases:     core.Scale(24000, 600000),
+		Cases:     core.Scale(80000, 2000000),
 		Mandatory: []string{"oracle.store_checks", "oracle.bound_checks", "layout.collapse", "merge.wide_into_empty_bounded_receiver", "sketch.queries_retained", "sketch.queries_collapsed"},
 		Assumptions: []string{
 			"weights are dyadic and budgeted so that float arithmetic is exact",
